@@ -221,3 +221,219 @@ Fixpoint own_trace R c (t : tid) (s : st) (h : list op) : list obs :=
   | [] => []
   | o :: h' => (if Nat.eqb (thr o) t then [out R c s o] else []) ++ own_trace R c t (nxt R c s o) h'
   end.
+
+(* ------------------------------------------------------------------ both managers side by side *)
+
+(* tensorly.backend's manager and tensorly.tenalg's manager are two instances of the same machine
+   (TenalgBackendManager is a subclass that re-declares every piece of state: _backend,
+   _THREAD_LOCAL_DATA, _loaded_backends, _default_backend).  A mixed operation names its manager:
+   false = tensorly.backend, true = tensorly.tenalg. *)
+Record st2 := { s_bk : st; s_ta : st }.
+Definition mop := (bool * op)%type.
+
+Definition on (m : bool) (s : st2) : st := if m then s_ta s else s_bk s.
+Definition put (m : bool) (s : st2) (x : st) : st2 :=
+  if m then {| s_bk := s_bk s; s_ta := x |} else {| s_bk := x; s_ta := s_ta s |}.
+Definition cfg2 (cb ct : cfg) (m : bool) : cfg := if m then ct else cb.
+
+Definition step2 (R : rules) (cb ct : cfg) (s : st2) (a : mop) : st2 * obs :=
+  let (m, o) := a in
+  let r := step R (cfg2 cb ct m) (on m s) o in (put m s (fst r), snd r).
+Definition nxt2 R cb ct s a : st2 := fst (step2 R cb ct s a).
+Definition out2 R cb ct s a : obs := snd (step2 R cb ct s a).
+Definition run2 R cb ct (s : st2) (h : list mop) : st2 := fold_left (nxt2 R cb ct) h s.
+Fixpoint trace2 R cb ct (s : st2) (h : list mop) : list (bool * obs) :=
+  match h with [] => [] | a :: h' => (fst a, out2 R cb ct s a) :: trace2 R cb ct (nxt2 R cb ct s a) h' end.
+(* the part of a mixed history / trace that belongs to manager m *)
+Definition proj {A} (m : bool) (h : list (bool * A)) : list A :=
+  map snd (filter (fun a => Bool.eqb (fst a) m) h).
+Definition init2 (own0 : tid -> option inst) : st2 := {| s_bk := init own0; s_ta := init own0 |}.
+
+(* ------------------------------------------------------------------ micro-steps (what a thread switch can separate)
+
+   Every operation is a short program of acts; an act touches the thread's private state (its
+   thread-local slot, its stack of live contexts, the local variable `_old_backend`, the answers it
+   received) and AT MOST ONE of them reads or writes the shared default `cls._backend`.
+   `cls._default_backend` is written between the thread-local slot and `cls._backend`; nothing reads it
+   after import, so ADname is a no-op here and `dname` / `loaded` are not part of the comparison. *)
+Inductive src := Const (b : inst) | FromReg.
+
+Inductive act :=
+| ASave                 (* _old_backend = cls.current_backend(): ONE read of the shared default *)
+| ATls (v : src)        (* cls._THREAD_LOCAL_DATA.backend = backend *)
+| ADname (v : src)      (* cls._default_backend = backend.backend_name   (never read again after import) *)
+| AShared (v : src)     (* cls._backend = backend: ONE write of the shared default *)
+| APush (l : bool)      (* the generator reaches `yield`: the context is live *)
+| APop                  (* the finally clause starts: the frame's _old_backend is picked up *)
+| AEmit (o : obs)       (* the call returns / raises *)
+| AQuery | ADispatch.   (* get_backend() / a dispatched call: ONE read of the shared default *)
+
+Record priv := { p_tls : option inst; p_ctx : list (inst * bool); p_reg : inst; p_out : list obs }.
+
+Definition pcur (sh : inst) (p : priv) : inst := match p_tls p with Some b => b | None => sh end.
+Definition val (p : priv) (v : src) : inst := match v with Const b => b | FromReg => p_reg p end.
+
+Definition act_priv (c : cfg) (sh : inst) (p : priv) (a : act) : priv :=
+  match a with
+  | ASave => {| p_tls := p_tls p; p_ctx := p_ctx p; p_reg := pcur sh p; p_out := p_out p |}
+  | ATls v => {| p_tls := Some (val p v); p_ctx := p_ctx p; p_reg := p_reg p; p_out := p_out p |}
+  | APush l => {| p_tls := p_tls p; p_ctx := (p_reg p, l) :: p_ctx p; p_reg := p_reg p; p_out := p_out p |}
+  | APop => match p_ctx p with
+            | [] => p
+            | (old, _) :: k => {| p_tls := p_tls p; p_ctx := k; p_reg := old; p_out := p_out p |}
+            end
+  | AEmit o => {| p_tls := p_tls p; p_ctx := p_ctx p; p_reg := p_reg p; p_out := p_out p ++ [o] |}
+  | AQuery => {| p_tls := p_tls p; p_ctx := p_ctx p; p_reg := p_reg p; p_out := p_out p ++ [OName (name_of c (pcur sh p))] |}
+  | ADispatch => {| p_tls := p_tls p; p_ctx := p_ctx p; p_reg := p_reg p; p_out := p_out p ++ [OInst (pcur sh p)] |}
+  | ADname _ | AShared _ => p
+  end.
+
+Definition act_shared (sh : inst) (p : priv) (a : act) : inst :=
+  match a with AShared v => val p v | _ => sh end.
+
+(* acts that neither read nor write the shared default *)
+Definition is_private (a : act) : bool :=
+  match a with ASave | AQuery | ADispatch | AShared _ => false | _ => true end.
+
+Record bst := { b_shared : inst; b_priv : tid -> priv }.
+
+Definition bexec (c : cfg) (b : bst) (t : tid) (a : act) : bst :=
+  {| b_shared := act_shared (b_shared b) (b_priv b t) a;
+     b_priv := upd (b_priv b) t (act_priv c (b_shared b) (b_priv b t) a) |}.
+
+(* a block: acts of ONE thread executed without any other thread in between *)
+Definition bblock (c : cfg) (b : bst) (tl : tid * list act) : bst :=
+  fold_left (fun b a => bexec c b (fst tl) a) (snd tl) b.
+Definition bblocks (c : cfg) (b : bst) (l : list (tid * list act)) : bst := fold_left (bblock c) l b.
+
+(* programs: acts tagged with "this is where the block takes effect" *)
+Definition prog := list (act * bool).
+Definition has_lp (l : prog) : bool := existsb snd l.
+
+Record mst := { m_b : bst; m_pend : tid -> prog;
+                m_snap : tid -> priv; m_done : tid -> list act  (* ghost: bookkeeping for the proof *) }.
+
+Inductive ev := Begin (t : tid) (p : prog) | Tick (t : tid).
+
+Definition mstep (c : cfg) (m : mst) (e : ev) : mst * list (tid * list act) :=
+  match e with
+  | Begin t p =>
+      match m_pend m t with
+      | [] => ({| m_b := m_b m; m_pend := upd (m_pend m) t p;
+                  m_snap := upd (m_snap m) t (b_priv (m_b m) t); m_done := upd (m_done m) t [] |}, [])
+      | _ => (m, [])
+      end
+  | Tick t =>
+      match m_pend m t with
+      | [] => (m, [])
+      | (a, lp) :: rest =>
+          let b' := bexec c (m_b m) t a in
+          if lp then
+            ({| m_b := b'; m_pend := upd (m_pend m) t rest;
+                m_snap := upd (m_snap m) t (b_priv b' t); m_done := upd (m_done m) t [] |},
+             [(t, m_done m t ++ a :: (if has_lp rest then [] else map fst rest))])
+          else
+            ({| m_b := b'; m_pend := upd (m_pend m) t rest;
+                m_snap := m_snap m; m_done := upd (m_done m) t (m_done m t ++ [a]) |}, [])
+      end
+  end.
+
+Fixpoint mrun (c : cfg) (m : mst) (s : list ev) : mst * list (tid * list act) :=
+  match s with
+  | [] => (m, [])
+  | e :: s' => let (m1, l1) := mstep c m e in let (m2, l2) := mrun c m1 s' in (m2, l1 ++ l2)
+  end.
+
+
+(* the programs of the five operations; the flag marks the act at which a block of the program takes
+   effect for everybody else (thread-local flavour: the write of the thread-local slot; otherwise the
+   write of the shared default; for the entry of a context ALSO the read of the current backend) *)
+Definition writes (v : src) (l : bool) : prog :=
+  if l then [(ATls v, true)] else [(ATls v, false); (ADname v, false); (AShared v, true)].
+
+Definition compile (R : rules) (c : cfg) (p : priv) (o : op) : prog :=
+  match o with
+  | Set_ _ x l => match resolve R c x with
+                  | None => [(AEmit ORejected, true)]
+                  | Some b => writes (Const b) l ++ [(AEmit ODone, false)]
+                  end
+  | Enter _ x l => (ASave, true) ::
+                  match resolve R c x with
+                  | None => [(AEmit ORejected, true)]
+                  | Some b => writes (Const b) l ++ [(APush l, false); (AEmit ODone, false)]
+                  end
+  | Exit_ _ _ => match p_ctx p with
+                 | [] => [(AEmit ONoCtx, true)]
+                 | (old, l) :: _ =>
+                     if isinst R old
+                     then (APop, false) :: writes FromReg (if keep_flag R then l else false) ++ [(AEmit ODone, false)]
+                     else [(APop, true); (AEmit OExitFailed, false)]
+                 end
+  | Query _ => [(AQuery, true)]
+  | Dispatch _ => [(ADispatch, true)]
+  end.
+
+Definition to_st (b : bst) : st :=
+  {| shared := b_shared b; dname := 0; tls := fun t => p_tls (b_priv b t);
+     loaded := fun _ => false; ctx := fun t => p_ctx (b_priv b t) |}.
+
+Definition count_lp (l : prog) : nat := length (filter snd l).
+
+
+(* blocks in the vocabulary of operations, and the micro-step machine driven by operations *)
+Inductive aop :=
+| AOp (o : op)                               (* a whole operation *)
+| ASaveOp (t : tid)                          (* backend_context, first half: _old_backend = current_backend() *)
+| AEnterRest (t : tid) (x : sel) (l : bool). (* backend_context, second half: set_backend(...); yield *)
+
+Definition block_of (R : rules) (c : cfg) (b : bst) (a : aop) : tid * list act :=
+  match a with
+  | AOp o => (thr o, map fst (compile R c (b_priv b (thr o)) o))
+  | ASaveOp t => (t, [ASave])
+  | AEnterRest t x l => (t, tl (map fst (compile R c (b_priv b t) (Enter t x l))))
+  end.
+Definition astep R c (b : bst) (a : aop) : bst := bblock c b (block_of R c b a).
+Definition arun R c (b : bst) (h : list aop) : bst := fold_left (astep R c) h b.
+
+Inductive oev := OBegin (o : op) | OTick (t : tid).
+
+Record ost := { o_m : mst; o_cur : tid -> op * bool }.
+
+Definition ostep R c (s : ost) (e : oev) : ost * list aop :=
+  match e with
+  | OBegin o =>
+      let t := thr o in
+      match m_pend (o_m s) t with
+      | [] => ({| o_m := fst (mstep c (o_m s) (Begin t (compile R c (b_priv (m_b (o_m s)) t) o)));
+                  o_cur := upd (o_cur s) t (o, false) |}, [])
+      | _ => (s, [])
+      end
+  | OTick t =>
+      match m_pend (o_m s) t with
+      | (a, true) :: rest =>
+          let (o, ph) := o_cur s t in
+          ({| o_m := fst (mstep c (o_m s) (Tick t)); o_cur := upd (o_cur s) t (o, true) |},
+           [match o with Enter _ x l => if ph then AEnterRest t x l else ASaveOp t | _ => AOp o end])
+      | _ => ({| o_m := fst (mstep c (o_m s) (Tick t)); o_cur := o_cur s |}, [])
+      end
+  end.
+
+Fixpoint orun R c (s : ost) (l : list oev) : ost * list aop :=
+  match l with
+  | [] => (s, [])
+  | e :: l' => let (s1, h1) := ostep R c s e in let (s2, h2) := orun R c s1 l' in (s2, h1 ++ h2)
+  end.
+
+Definition quiet (b : bst) : ost :=
+  {| o_m := {| m_b := b; m_pend := fun _ => []; m_snap := b_priv b; m_done := fun _ => [] |};
+     o_cur := fun t => (Query t, false) |}.
+
+(* observable part of a state of Model/Backend.v (dname / loaded are never read by an operation) *)
+Definition seqv (s1 s2 : st) : Prop :=
+  shared s1 = shared s2 /\ (forall t, tls s1 t = tls s2 t) /\ (forall t, ctx s1 t = ctx s2 t).
+Definition beqv (b1 b2 : bst) : Prop :=
+  b_shared b1 = b_shared b2 /\ forall t, b_priv b1 t = b_priv b2 t.
+
+Definition flat (h : list op) : list aop :=
+  flat_map (fun o => match o with Enter t x l => [ASaveOp t; AEnterRest t x l] | _ => [AOp o] end) h.
+
